@@ -54,6 +54,15 @@ OPS = [
     ('not_not', 'bool', ('un', 'not', ('un', 'not', bin_('<', A, Bv))), False),
     ('cast_byte_truth', 'bool', is_(is_(bin_('*', A, Bv), 'byte'), 'bool'), False),
     ('byte_cond', 'byte', is_(bin_('-', A, Bv), 'byte'), False),
+    # an arithmetic result compared with a constant: where a compare/arithmetic fusion (x - y < 0 as x < y, x + 1 > x
+    # as true, -x < 0 as x > 0) is only right while nothing wraps around (after seeded change C09-14)
+    ('sub_lt0', 'bool', bin_('<', bin_('-', A, Bv), I(0)), False), ('sub_le0', 'bool', bin_('<=', bin_('-', A, Bv), I(0)), False),
+    ('sub_gt0', 'bool', bin_('>', bin_('-', A, Bv), I(0)), False), ('sub_ge0', 'bool', bin_('>=', bin_('-', A, Bv), I(0)), False),
+    ('sub_eq0', 'bool', bin_('==', bin_('-', A, Bv), I(0)), False), ('zero_lt_sub', 'bool', bin_('<', I(0), bin_('-', A, Bv)), False),
+    ('add_lt0', 'bool', bin_('<', bin_('+', A, Bv), I(0)), False), ('add_ge_b', 'bool', bin_('>=', bin_('+', A, Bv), Bv), False),
+    ('inc_gt', 'bool', bin_('>', bin_('+', A, I(1)), A), False), ('neg_lt0', 'bool', bin_('<', ('un', '-', A), I(0)), False),
+    ('mul_gt0', 'bool', bin_('>', bin_('*', A, Bv), I(0)), False), ('sub_lt1', 'bool', bin_('<', bin_('-', A, Bv), I(1)), False),
+    ('byte_sub_lt0', 'bool', bin_('<', bin_('-', AB, BB), I(0)), False),
 ]
 
 N_FIXED = len(OPS) * len(WORDS) * 16
